@@ -74,7 +74,7 @@ CLAIMED = {
          "closed forms and strict monotonicity in the margin). Whole-search optimality: bounded stand-in shared with C04 (largest difficulty of the "
          "returned set equals max over alternative orders of the cheapest true assertion contradicting it, by brute force, both difficulty "
          "functions, with/without order hint).", "search loop bounded", "§4.C15"),
- "C16": ('other', "Proved for symbolic sizes: NonnegMean.sample_size deterministic branch (tiling, first crossing, else N); Assertion.interleave_values by a loop invariant (exact counts, n_big >= 1); Assertion.find_sample_size comparison data (x[i] by position for symbolic N and steps, delegation with the contest's risk limit). Bounded stand-ins: polling data, contest / audit maxima, prefix-crossing simulations. Known finding K7.",
+ "C16": ('other', "Proved for symbolic sizes: NonnegMean.sample_size deterministic branch (tiling, first crossing, else N); Assertion.interleave_values by a loop invariant (exact counts of each value for every non-empty (n_small, n_med, n_big)); Assertion.find_sample_size comparison data (x[i] by position for symbolic N and steps, delegation with the contest's risk limit). Bounded stand-ins: polling data, contest / audit maxima, prefix-crossing simulations.",
          'test abstracted by its C11 interface; int(1/rate) handled for rates of the form 1/step', '§4.C16'),
  "C17": ('other', "Proved for a SYMBOLIC number of batches (pandas abstracted to columns, np.searchsorted by its contract, cumulative counts as ghost sums): one sample number maps to a batch and position with position within the batch's size and s = cards before + position (Dominion 1-based/left, Hart 0-based/right), phantom MVR iff phantom batch; prep_manifest refuses / appends exactly as stated. Bounded stand-in: several samples at once, injectivity, CVR-driven look-up.",
          'pandas / numpy contracts trusted; one sample per proved call', '§4.C17'),
